@@ -48,6 +48,8 @@ def cases(tier, seed):
         o = opts(mode, rng.choice([0, 1, 2]), rng.choice([0, 0, 1, 2, 3, 5]), rng.choice([0, 0, 2, 5, 12]), False, black, x0,
                  h % 3 != 0)
         case = {"table": table, "px": px, "o": o, "chunk": rng.choice([0, 2, 5, 10 ** 6]), "store": h % 5 == 0, "witness": False}
+        if h % 10 in (4, 5):
+            case["at"] = ["/resolutions/1000", "/a/b"][h % 2]      # a level of a multires file / any nested group
         if h % 11 == 4 and not x0:
             case["via"] = "cli"
             case["o"]["rescale"] = True
